@@ -293,14 +293,17 @@ func init() {
 		Quick: []Job{
 			{H: "H_C05_TwoDrivers", K: 44, U: 4, Prune: true, Preempt: 2, TimeoutSec: 900},
 			{H: "H_C05_RetryReplaced", K: 48, U: 3, Prune: true, Preempt: 2, TimeoutSec: 900},
-			// bug hunting only in the quick tier (short solver budget; the full proof is in thorough)
 			{H: "H_C05_StateVsRestart", K: 48, U: 4, Prune: true, Preempt: 1, TimeoutSec: 740, QueryMs: 400000},
+			// the sequential supersession scripts of C04, here for their C05 oracles: the superseded
+			// instance's context is cancelled when the superseding call returns / before a successor runs
+			{H: "H_C04_SetContext2", K: 36, U: 3, Prune: true, Preempt: 2, Only: "superseded|panic/", TimeoutSec: 900},
+			{H: "H_C04_Restart2", K: 36, U: 3, Prune: true, Preempt: 2, Only: "superseded|panic/", TimeoutSec: 900},
 		},
 		Thorough: []Job{
 			{H: "H_C05_StateVsRestart", K: 48, U: 4, Prune: true, Preempt: 2, TimeoutSec: 6000, QueryMs: 5000000},
 			{H: "H_C05_Survivor", K: 48, U: 4, Prune: true, Preempt: 2, TimeoutSec: 6000, QueryMs: 5000000},
 		},
-		Bounds:  "StateRoutineContainer with instances that run until cancelled; two concurrent drivers (SetState || SetContext;ClearContext and SetState || RestartRoutine) and one driver with a symbolic script of 2 operations out of {SetState(2), SetState(empty), RestartRoutine, SetContext(B), ClearContext}; checks at quiescence; <= 5 instances; K=44-48, U=4; schedules with at most 2 preemptions (context bound)",
+		Bounds:  "RoutineContainer: SetContext(A); SetContext(B, restart symbolic); RestartRoutine and two RestartRoutine calls, each superseded instance cancelled when the call returns; StateRoutineContainer with instances that run until cancelled; two concurrent drivers (SetState || SetContext;ClearContext and SetState || RestartRoutine) and one driver with a symbolic script of 2 operations out of {SetState(2), SetState(empty), RestartRoutine, SetContext(B), ClearContext}; checks at quiescence; <= 5 instances; K=44-48, U=4; schedules with at most 2 preemptions (context bound)",
 		Outside: "more than 2 concurrent drivers, more than 2 scripted operations, instances that exit on their own (see C14)",
 	}
 	plans["C14"] = Plan{
@@ -430,6 +433,8 @@ func init() {
 			{H: "H_C08_Script", K: 60, U: 3, Prune: true, Preempt: 2, Fixes: []string{"op0=0,op1=4"}, TimeoutSec: 1200},
 			{H: "H_C08_Script", K: 60, U: 3, Prune: true, Preempt: 2, Fixes: []string{"op0=3,op1=0"}, TimeoutSec: 1200},
 			{H: "H_C08_Script", K: 60, U: 3, Prune: true, Preempt: 2, Fixes: []string{"op0=0,op1=2"}, TimeoutSec: 1200},
+			// SetContext(B), then the FIRST value's released() callback again (stale): one preemption
+			{H: "H_C08_Script", K: 60, U: 3, Prune: true, Preempt: 1, Fixes: []string{"op0=2,op1=5"}, TimeoutSec: 1200},
 			{H: "H_C08_Script", K: 60, U: 3, Prune: true, Preempt: 2, Fixes: []string{"op0=2,op1=0"}, TimeoutSec: 1200},
 			{H: "H_C08_Script", K: 60, U: 3, Prune: true, Preempt: 2, Fixes: []string{"op0=0,op1=3"}, TimeoutSec: 1200},
 		},
@@ -438,9 +443,9 @@ func init() {
 				{H: "H_C08_ReleasedRace", K: 60, U: 3, Prune: true, Preempt: 2, TimeoutSec: 3000},
 				{H: "H_C08_Slow", K: 60, U: 3, Prune: true, Preempt: 2, TimeoutSec: 3000},
 			},
-			split(Job{H: "H_C08_Script", K: 60, U: 3, Prune: true, Preempt: 2, Fixes: scriptCases(5), TimeoutSec: 6000}, 8),
+			split(Job{H: "H_C08_Script", K: 60, U: 3, Prune: true, Preempt: 2, Fixes: scriptCases(6), TimeoutSec: 6000}, 8),
 		),
-		Bounds:  "RefCount with a target container and release functions that check the obligations; quick: resolver error + 5 scripts of 2 operations out of {release ref, add+release second ref, SetContext(B), ClearContext, released()} with keep-unreferenced symbolic; thorough: all 25 scripts, released() racing the last Release, slow resolver superseded; schedules with at most 2 preemptions; K=60",
+		Bounds:  "RefCount with a target container and release functions that check the obligations; quick: resolver error + 6 scripts of 2 operations out of {release ref, add+release second ref, SetContext(B), ClearContext, released(), the first value's released() again (stale)} with keep-unreferenced symbolic, a value being released only after an invalidating event; thorough: all 36 scripts, released() racing the last Release, slow resolver superseded; schedules with at most 2 preemptions; K=60",
 		Outside: "more than 2 references / 3 resolver calls; 'shortly after' is read as 'by quiescence'",
 	}
 	plans["C13"] = Plan{
